@@ -182,9 +182,8 @@ class Renderer:
             self.tag_next(("pos", path))
             self.e("Position", pre)
             self.e("<", "")
-            nm = v["name"]
-            q = "'" if self.ch(2) == 0 else '"'
-            self.e(q + nm + q, "")
+            # the name is a single-line string literal: quotes and line breaks in it are escaped
+            self.e(spell_string(v["name"], self.ch, self.dims, allow_multiline=False), "")
             self.e(",", "")
             self.e(self.pos_arg(v["x"], v["xh"]), " ")
             self.e(",", "")
